@@ -101,7 +101,7 @@ pub fn gen_case2(prop: &str, tier: Tier, _seed: u64, idx: u64, r: &mut Rng) -> O
                 if r.chance(1, 6) {
                     // hostile sequence header / parameter sets handed to the builder
                     let n = r.range(0, 40) as usize;
-                    h.cfg.av1_seq = if r.chance(1, 3) { Some(crate::model::av1::truncated_seq_unit(r)) } else { h.cfg.av1_seq.as_ref().map(|s| hostile_bytes(r, s)).or(Some(r.bytes(n))) };
+                    h.cfg.av1_seq = if r.chance(1, 3) { Some(if r.chance(1, 4) { crate::model::av1::reserved_uvlc_seq_unit(r) } else { crate::model::av1::truncated_seq_unit(r) }) } else { h.cfg.av1_seq.as_ref().map(|s| hostile_bytes(r, s)).or(Some(r.bytes(n))) };
                 }
                 h.cfg.lang = if r.chance(1, 3) { Some(crate::gen::hist::hostile_lang(r)) } else { None };
                 Case::Frag { h, side: Side { av1: side, vp9: None, op: 0 } }
@@ -111,7 +111,7 @@ pub fn gen_case2(prop: &str, tier: Tier, _seed: u64, idx: u64, r: &mut Rng) -> O
                 let kind = *r.pick(&[FrameKind::KeyCfg, FrameKind::KeyNoCfg, FrameKind::Delta]);
                 let valid = video_frame(r, codec, kind, 24, true);
                 let data = if codec == AV1 && r.chance(1, 3) {
-                    crate::model::av1::truncated_seq_unit(r)
+                    if r.chance(1, 4) { crate::model::av1::reserved_uvlc_seq_unit(r) } else { crate::model::av1::truncated_seq_unit(r) }
                 } else if r.chance(1, 5) {
                     valid.clone()
                 } else {
@@ -161,6 +161,23 @@ pub fn gen_case2(prop: &str, tier: Tier, _seed: u64, idx: u64, r: &mut Rng) -> O
                 for i in 0..9000u32 {
                     let kind = if i == 0 { FrameKind::KeyCfg } else { FrameKind::Delta };
                     let f = if i < 2 { crate::gen::frames::vp9_frame(r, kind, 3).0 } else { vec![0x49, 0x83, 0x42, 0x50 | (i & 0xf) as u8, (i >> 4) as u8, i as u8] };
+                    ops.push(Op::wv(i as f64 / 30.0, f, i == 0));
+                }
+                ops.push(Op::Finish(FinishKind::InPlaceStats));
+                h = History { cfg, ops };
+            }
+            if !small && idx % 97 == 11 {
+                // a recording with one access unit of more than a mebibyte (chunked output paths)
+                let mut cfg = Cfg::basic(VP9);
+                cfg.fast_start = Some(idx % 2 == 1);
+                let mut ops = Vec::new();
+                for i in 0..4u32 {
+                    let kind = if i == 0 { FrameKind::KeyCfg } else { FrameKind::Delta };
+                    let mut f = crate::gen::frames::vp9_frame(r, kind, 3).0;
+                    if i == 2 {
+                        let n = *r.pick(&[(1usize << 20) + 1, 1_300_000, (2 << 20) + 17, 2_700_000]);
+                        f.extend(r.bytes(n));
+                    }
                     ops.push(Op::wv(i as f64 / 30.0, f, i == 0));
                 }
                 ops.push(Op::Finish(FinishKind::InPlaceStats));
@@ -289,6 +306,13 @@ pub fn gen_case2(prop: &str, tier: Tier, _seed: u64, idx: u64, r: &mut Rng) -> O
                 }
                 if r.chance(1, 40) {
                     h.cfg.title = Some("t".repeat(100_000));
+                }
+                if r.chance(1, 25) {
+                    // a recording finished before any frame arrived still carries its metadata
+                    h.ops.retain(|op| op.is_finish());
+                    if r.chance(1, 2) {
+                        h.cfg.audio = None;
+                    }
                 }
                 Case::Hist { h, side: Side::default() }
             }
